@@ -117,6 +117,6 @@ func init() {
 		Level:  "exploration",
 		Rule:   "every execution (choice sequence) with at most D deviations from the default environment of each listed scenario; non-trivial = some instance reported leadership; distinct = distinct observation-trace hash",
 		Assume: []string{"reference store semantics (validated by C14)", "participants bounded to 3 instances", "deviation bound as reported per scenario"},
-		Plan:   c02Plan,
+		Plan:   func(t string) []PlanItem { return append(c02Plan(t), finePlan("C02", t)...) },
 	}
 }
